@@ -56,7 +56,44 @@ void reim_invbitwiddle_ifft_avx2_fma(uint32_t h, double* re, double* im, double 
 #endif
 #endif
 
+#ifdef __CPROVER__
+int vf_marker;
+#endif
+#if defined(VF_TSAN_REPLAY) && !defined(__CPROVER__)
+/* native confirmation of a write-set hit (C12): two real threads run the real drivers on one shared table and private data under ThreadSanitizer */
+#include <pthread.h>
+static void* vf_tbl;
+static void* vf_sched_worker(void* arg) {
+  double* x = (double*)arg;
+  for (int it = 0; it < 6; ++it) {
+#if KIND == 0
+    reim_fft_avx2_fma((REIM_FFT_PRECOMP*)vf_tbl, x);
+    reim_fft_ref((REIM_FFT_PRECOMP*)vf_tbl, x);
+#else
+    reim_ifft_avx2_fma((REIM_IFFT_PRECOMP*)vf_tbl, x);
+    reim_ifft_ref((REIM_IFFT_PRECOMP*)vf_tbl, x);
+#endif
+  }
+  return 0;
+}
+#endif
+
 void h_sched(void) {
+#if defined(VF_TSAN_REPLAY) && !defined(__CPROVER__)
+  {
+    vf_tbl = KIND == 0 ? (void*)new_reim_fft_precomp(M, 0) : (void*)new_reim_ifft_precomp(M, 0);
+    double* xs[2];
+    for (int t = 0; t < 2; ++t) {
+      xs[t] = (double*)aligned_alloc(64, 2 * (uint64_t)M * sizeof(double));
+      for (uint64_t i = 0; i < 2 * (uint64_t)M; ++i) xs[t][i] = (double)((i * 7 + t) % 13) - 6.0;
+    }
+    pthread_t th[2];
+    for (int t = 0; t < 2; ++t) pthread_create(&th[t], 0, vf_sched_worker, xs[t]);
+    for (int t = 0; t < 2; ++t) pthread_join(th[t], 0);
+    VF_REACH();
+    return;
+  }
+#endif
 #ifdef __CPROVER__
   vf_dat = (double*)malloc(2 * (uint64_t)M * sizeof(double));
   vf_omg = (double*)malloc(2 * (uint64_t)M * sizeof(double));
@@ -69,6 +106,7 @@ void h_sched(void) {
   p.m = M;
   p.powomegas = vf_omg;
   vf_cur = 0;
+  vf_marker = 1; /* C12: the write-set analysis looks at the static-lifetime objects the drivers assign from here on */
 #if KIND == 0
   reim_fft_ref(&p, vf_dat);
   vf_cur = 1;
